@@ -3,6 +3,7 @@
 From Coq Require Import Reals List String.
 From PUN Require Import Base.Num Model.Interval Model.Pbox Model.PboxArith Gen.GenDispatch Model.Dispatch
   Proofs.ListR Proofs.IntervalOps Proofs.Hier Proofs.Dispatch.
+From PUN Require Import Model.PboxArith Gen.GenGlue Proofs.Glue.
 Import ListNotations.
 Open Scope R_scope.
 
@@ -11,6 +12,15 @@ Open Scope R_scope.
 Theorem C07_add steps plo phi d a b : (0 < steps)%nat -> wfp a -> wfp b ->
   padd RN steps plo phi d (embed steps a) (embed steps b) = Ok (embed steps (fst a + fst b, snd a + snd b)).
 Proof. intros H. exact (embed_add steps plo phi H d a b). Qed.
+(* TIE: the p-box operations these theorems are about are the ones translated from pba/pbox_abc.py on every run (Gen/GenGlue.v) *)
+Theorem C07_operations_are_translated (N : Num) (steps : nat) (p_lo p_hi : N) (p q : pbox N) (d : dep) fuel :
+  gen_add N steps p_lo p_hi fuel p q d = padd N steps p_lo p_hi d p q /\
+  gen_sub N steps p_lo p_hi fuel p q d = psub N steps p_lo p_hi d p q /\
+  gen_mul N steps p_lo p_hi mul_fuel p q d = pmul N steps p_lo p_hi d p q /\
+  gen_div N steps p_lo p_hi mul_fuel p q d = pdiv N steps p_lo p_hi d p q.
+Proof. exact (conj (gen_add_is_model N steps p_lo p_hi fuel p q d) (conj (gen_sub_is_model N steps p_lo p_hi fuel p q d)
+              (conj (gen_mul_is_model N steps p_lo p_hi p q d) (gen_div_is_model N steps p_lo p_hi p q d)))). Qed.
+
 Print Assumptions C07_add.
 Theorem C07_sub steps plo phi d a b : (0 < steps)%nat -> wfp a -> wfp b ->
   psub RN steps plo phi d (embed steps a) (embed steps b) = Ok (embed steps (fst a - snd b, snd a - fst b)).
@@ -50,3 +60,4 @@ Theorem C07_dss_reflected (V : Type) (bin : string -> V -> V -> V) fwd refl : In
   forall self other : V, dss_dunder V bin refl self other = Some (bin fwd other self).
 Proof. exact (reflected_ok V bin fwd refl). Qed.
 Print Assumptions C07_dss_reflected.
+Print Assumptions C07_operations_are_translated.
